@@ -4,7 +4,7 @@ import json, random
 PTY = {"u8": "u8", "string": "String", "ru8": "&u8", "rru8": "&&u8", "str": "&str", "mu8": "&mut u8", "mvec": "&mut Vec<u8>", "mlvec": "&'a mut Vec<u8>",
        "slice": "&[u8]", "vec": "Vec<u8>", "gen": "T", "optstr": "Option<&str>", "pair": "(u8, u8)"}
 RTY = {"u32": "u32", "string": "String", "opt": "Option<u32>", "ref": "&u32", "sref": "&'s u32", "optref": "Option<&u32>", "static": "&'static str",
-       "assoc": "Self::Out", "pref": "&'a str"}
+       "assoc": "Self::Out", "pref": "&'a str", "dynref": "&dyn std::fmt::Display", "boxdyn": "Box<dyn std::fmt::Display>"}
 RECV = {"ref": "&self", "mut": "&mut self", "own": "self", "rc": "self: std::rc::Rc<Self>", "arc": "self: std::sync::Arc<Self>", "pin": "self: std::pin::Pin<&mut Self>"}
 
 
@@ -70,7 +70,7 @@ def render(cases):
         mshows = ", ".join("sh(a%d)" % (i + 1) for i in range(len(params)))      # matcher: bindings are references to them
         writes = "".join(("*a%d += 100; " % (i + 1)) if k == "mu8" else ("a%d.push(%d); " % (i + 1, i + 101)) if k in ("mvec", "mlvec") else "" for i, k in enumerate(params))
         retexpr = {"u32": "4242u32", "string": 'String::from("ret")', "opt": "Some(7u32)", "ref": None, "sref": None, "optref": None,
-                   "static": '"lit"', "assoc": "4242u32", "pref": "a1"}[ret]
+                   "static": '"lit"', "assoc": "4242u32", "pref": "a1", "dynref": None, "boxdyn": "Box::new(78u32) as Box<dyn std::fmt::Display>"}[ret]
         if api == "hidden":
             L.append("#[unimock(unmock_with=[real_%d])]" % n)
             L.append("trait Tr%d { %s }" % (n, sig))
@@ -91,8 +91,9 @@ def render(cases):
                 mt = "&|m| { m.func(|_, _| rec_m(vec![])); }"
             else:
                 mt = "matching!((%s) if rec_m(vec![%s]))" % (names, mshows)
-            uparam = "u" if (ret in ("ref", "sref", "optref") or recv == "own") else "_u"
-            rexpr = "Unimock::make_ref(u, 77u32)" if ret in ("ref", "sref") else "Some(Unimock::make_ref(u, 77u32))" if ret == "optref" else retexpr
+            uparam = "u" if (ret in ("ref", "sref", "optref", "dynref") or recv == "own") else "_u"
+            rexpr = "Unimock::make_ref(u, 77u32)" if ret in ("ref", "sref") else "Some(Unimock::make_ref(u, 77u32))" if ret == "optref" \
+                else "Unimock::make_ref(u, 77u32) as &dyn std::fmt::Display" if ret == "dynref" else retexpr
             if recv == "own" and asy == "none":
                 # the receiver handed to the answer is the caller's own instance: an original accepts verify(), a clone does not
                 writes = writes + "u.verify(); "
